@@ -267,7 +267,9 @@ def eval_init(case):
 GW = ['aabeaa', 'bbadab', 'eadaba', 'daabea', 'abdeab', 'beadaa']
 A2 = np.array([S.word_signal(w) for w in GW[:3]])
 A3 = np.array([[S.word_signal(GW[i * 3 + j]) for j in range(3)] for i in range(2)])
-GOPS = [['fit2', 0], ['fit2', None], ['fit3', 0], ['fit3', 1], ['fit3', [0, 1]], ['setthr', 'min_n_cycles', 1],
+A2B = np.array([S.word_signal(GW[i % len(GW)]) * (1. + i) for i in range(12)])          # more than ten signals (two-digit positions)
+A3B = np.array([[S.word_signal(GW[(i * 12 + j) % len(GW)]) * (1. + i * 12 + j) for j in range(12)] for i in range(2)])
+GOPS = [['fit2big', 0], ['fit3big', [0, 1]], ['fit2', 0], ['fit2', None], ['fit3', 0], ['fit3', 1], ['fit3', [0, 1]], ['setthr', 'min_n_cycles', 1],
         ['setthr', 'monotonicity_threshold', .3], ['edges', .1], ['rebind', 'amp_consistency_threshold', .3]]
 
 
@@ -278,8 +280,9 @@ def gbuild(init, hist):
     bg = BycycleGroup(center_extrema=init['center_extrema'], thresholds=copy.deepcopy(init['thresholds']))
     last = None
     for op in hist:
-        if op[0] in ('fit2', 'fit3'):
-            sigs = A2 if op[0] == 'fit2' else A3
+        if op[0] in ('fit2', 'fit3', 'fit2big', 'fit3big'):
+            sigs = {'fit2': A2, 'fit3': A3, 'fit2big': A2B, 'fit3big': A3B}[op[0]]
+            op = [op[0][:4], op[1]]
             axis = tuple(op[1]) if isinstance(op[1], list) else op[1]
             try:
                 bg.fit(sigs.copy(), FS, FR, axis=axis, n_jobs=1)
@@ -348,6 +351,8 @@ def eval_group(case):
         for op in GOPS:
             if len(h) == D and op[0] != 'edges':
                 continue          # one level deeper only for recompute_edges (fit -> edit -> recompute_edges)
+            if op[0].endswith('big') and h:
+                continue          # the 12-signal fits only as the first operation of a history (cost)
             h2 = h + [op]
             bg, led, last, prob = gbuild(init, h2)
             trans += 1
